@@ -34,8 +34,10 @@ def _v(rec, clause, sig, *a, **k):
 def units(tier, seed):
     shapes = [(2, 2), (2, 3), (3, 3), (3, 4), (4, 4), (4, 5)] + ([] if tier == "quick" else [(3, 5), (4, 6)])
     out = []
-    gen = AL.systems(shapes, seed=seed, order=2, bounds=["ub-finite", "lb-mixed", "scalar"], Ks=["default", "scalar", "vector", "matrix-pos"], cross=(tier != "quick"))
+    gen = AL.systems(shapes, seed=seed, order=2, bounds=["ub-finite", "lb-mixed", "scalar"], Ks=["default", "scalar", "vector", "matrix-pos"], cross=(tier != "quick"), zeros=True)
     for names, A, (lb, ub), K, bl in gen:
+        if tier == "quick" and names["A"] in ("perm", "seeded") and sum(names[k] not in ("default", "ub-finite") for k in ("bounds", "K", "baseline")) > 1:
+            continue  # second-order deviations only for the 'asc' and 'zeros' matrices in the quick tier
         out.append(dict(names=names, spec=B.spec_of(A, lb, ub, K, bl), tier=tier))
     return out
 
@@ -84,14 +86,18 @@ def run_unit(unit, rec):
             "some-outside": np.vstack([T_in[:2], T_out]),
             "all-outside": T_out,
             "with-zero-rows": np.vstack([np.zeros(m), T_in[:1], T_out[:2], np.zeros(m)]),
+            "inside-with-zero-rows": np.vstack([T_in[:2], np.zeros(m), T_in[2:3]]),
+            "only-zero-rows": np.zeros((2, m)),
             "single-outside": T_out[:1],
             "single-inside": T_in[:1],
         }
         amax = float(np.min(np.max(Abar * hi, axis=1)))
         # ---------------- L1 scaling
         for sname, T in sets.items():
-            if sname == "with-zero-rows":
+            if "zero-rows" in sname:
                 Tl = T[np.any(T != 0, axis=1)]
+                if len(Tl) == 0:
+                    continue
             else:
                 Tl = T
             Tl = np.maximum(Tl, c0) + 0.0  # light-induced part non-negative
@@ -153,6 +159,11 @@ def run_unit(unit, rec):
                     continue
                 zero = ~np.any(T != 0, axis=1)
                 Tn, On = T[~zero], out[~zero] if out.shape == T.shape else None
+                if len(Tn) == 0:
+                    rec.outcome("dist-scaling-only-zero/%s" % ("ok" if (out.shape == T.shape and not np.any(out)) else "bad"))
+                    if not (out.shape == T.shape and not np.any(out)):
+                        _v(rec, "g", dict(sig, what="all-zero rows do not stay zero"), "all-zero rows do not stay zero", case, observed=out, script=scr)
+                    continue
                 yin = _chroma(Tn, Bas)
                 mg_in = O.hull_margin(Y, yin) if m > 2 else np.minimum(yin[:, 0] - Y.min(), Y.max() - yin[:, 0])
                 all_inside = bool(np.all(mg_in >= 1e-9))
